@@ -610,6 +610,10 @@ class MagicRobot(wpilib.RobotBase):
             if hasattr(self, m):
                 continue
 
+            # An annotated tunable is not a component; it is bound below
+            if isinstance(getattr(cls, m, None), tunable):
+                continue
+
             # If the type is not actually a type, give a meaningful error
             if not isinstance(ctyp, type):
                 raise TypeError(
